@@ -152,6 +152,10 @@ else:
     for key in keys:
         if g2.get(key, 0) != exp0[key]:
             bad.append(("permutation", key, g2.get(key, 0), exp0[key]))
+    gg = ReactionSystem((rx_ for rx_ in rxns), checks=()).rates(dict(conc))
+    for key in gg:
+        if gg[key] != exp0[key]: bad.append(("rates of a system built from a generator of reactions", key, gg[key], exp0[key]))
+    if set(gg) != set(k_ for k_ in keys if any(k_ in d for rx_ in rxs for d in rx_)): bad.append(("system built from a generator", "substances", sorted(gg), "all species of the reactions"))
     gk = rsys.rates(dict(conc), substance_keys=list(keys))
     for key in keys:
         if gk.get(key, "missing") != exp0[key]:
@@ -324,9 +328,11 @@ def ob_system(patterns, keys, lo, hi, cstr_keys, twin=False):
         # optional arguments: an explicit key list for the system's rates (same numbers, those keys), and a `variables` mapping for the
         # array form that happens to hold OTHER numbers under the substance keys (the concentrations given positionally are the state)
         gotk = rsys.rates(dict(conc), substance_keys=list(keys))
+        # the same reactions handed over as a one-shot iterable, substances deduced: still the sum over ALL reactions
+        gotg = ReactionSystem((rx_ for rx_ in rxns), checks=()).rates(dict(conc))
         stale = {key: conc[key] + 1 for key in keys}
         arr2 = dCdt_list(rsys, list(law_of_mass_action_rates([conc[key] for key in keys], rsys, stale)))
-        opt_state = (gotk, arr2)
+        opt_state = (gotk, arr2, gotg)
         rs2 = ReactionSystem(rxns[::-1], list(keys), checks=())
         gotp = rs2.rates(dict(conc))
         # array-valued concentrations (a batch of states): the per-reaction contributions are accumulated per substance; mutable
@@ -350,7 +356,7 @@ def ob_system(patterns, keys, lo, hi, cstr_keys, twin=False):
     def goal(p):
         if p.kind == "exc":
             return False
-        got, gotc, arr, gotp, mats, exp, expc, (gota, varr), (gotk, arr2) = p.value
+        got, gotc, arr, gotp, mats, exp, expc, (gota, varr), (gotk, arr2, gotg) = p.value
         pairs = []
         present = set()
         for rx in rxs:
@@ -363,8 +369,10 @@ def ob_system(patterns, keys, lo, hi, cstr_keys, twin=False):
             pairs.append((gotp.get(key, 0), exp[key]))
         for key, v in zip(keys, arr):
             pairs.append((v, exp[key]))
-        if set(gotk) != set(keys):
+        if set(gotk) != set(keys) or set(gotg) != present:
             return False
+        for key in present:
+            pairs.append((gotg[key], exp[key]))
         for key, v in zip(keys, arr2):
             pairs.append((v, exp[key]))
             pairs.append((gotk[key], exp[key]))
@@ -433,6 +441,42 @@ def chunks(lst, n):
     return [lst[i::n] for i in range(n) if lst[i::n]]
 
 
+REPLAY_EXACT = '''
+from chempy import Reaction, ReactionSystem
+from chempy.kinetics.ode import law_of_mass_action_rates, dCdt_list
+bad = []
+rsys = ReactionSystem([Reaction({"A": 1}, {"B": 1}, 1), Reaction({"B": 1}, {"A": 1}, 1)], "A B")
+for conc, exp in (([10 ** 20 + 1, 10 ** 20], [-1, 1]), ([Fraction(10, 63), Fraction(1, 7)], [Fraction(-1, 63), Fraction(1, 63)]), ([3, 1], [-2, 2])):
+    arr = dCdt_list(rsys, list(law_of_mass_action_rates(conc, rsys, {})))
+    dct = rsys.rates(dict(zip("AB", conc)))
+    for key, a_, e_ in zip("AB", arr, exp):
+        for label, v in (("dCdt_list", a_), ("rates", dct[key])):
+            if v != e_ or isinstance(v, float): bad.append("%%s with exact inputs %%s: d[%%s]/dt = %%r, exact value %%r" %% (label, conc, key, v, e_))
+for b in bad: print("MISMATCH", b)
+sys.exit(1 if bad else 0)
+'''
+
+
+def task_exact():
+    """concrete sanity (NOT solver evidence): python ints and Fractions stay exact through both the dictionary and the array form (the symbolic
+    numbers of the other tasks are exact by construction, so a float accumulator start value or a float cast is invisible to them)"""
+    import subprocess
+    import sys as _sys
+    from chempy.kinetics.ode import dCdt_list
+
+    src = "import sys\nsys.path.insert(0, %r)\nfrom fractions import Fraction\n" % env.REPO + REPLAY_EXACT
+    r = subprocess.run([_sys.executable, "-c", src], capture_output=True, text=True, timeout=300)
+    res = dict(engine="concrete", functions=[env.describe(dCdt_list)], obligations=1, discharged=1 if r.returncode == 0 else 0, violations=[], queries=0,
+               twin="n/a", bounds="3 exact inputs (near-cancelling big ints, Fractions, small ints); concrete sanity, not counted as solver evidence",
+               sample={"inputs": "[10**20+1, 10**20], Fractions"})
+    if r.returncode == 1 and "MISMATCH" in r.stdout:
+        res["violations"].append(dict(key="exact_arithmetic", desc="exact inputs lose exactness: %s" % r.stdout[-300:], replay_src=REPLAY_EXACT))
+    elif r.returncode != 0:
+        res["inconclusive"] = ["exactness sanity could not be evaluated: %s" % r.stderr[-200:]]
+    res["status"] = "violation" if res["violations"] else ("inconclusive" if res.get("inconclusive") else "discharged")
+    return res
+
+
 def tasks(tier, seed):
     rnd = random.Random(seed)
     ts = []
@@ -471,4 +515,5 @@ def tasks(tier, seed):
     for i, ch in enumerate(chunks(systems, 8 if tier == "quick" else 32)):
         ts.append(dict(id="C03.struct.system.%02d" % i, fn="task_system",
                        kwargs=dict(pattern_sets=ch, keys=keys, lo=1, hi=2, label="struct"), timeout=3000))
+    ts.append(dict(id="C03.exact_arithmetic", fn="task_exact", kwargs={}, timeout=600))
     return ts
